@@ -191,6 +191,7 @@ class Explorer:
         self.undecided_paths: list[str] = []
         self.solver_seconds = 0.0
         self.covered: set[str] = set()  # obligations evaluated on at least one feasible path
+        self.conf_samples: list[dict] = []
         self.symbols_order: list[tuple] = []
         for k, v in (opts or {}).items():
             setattr(self, k, v)
@@ -206,6 +207,7 @@ class Explorer:
         self.class_mutables = {}
         self.known = {}
         self.cases = {}
+        self.path_names = []
         self.symbols = {}  # name -> (kind, z3 const)
         self.path_obligations = []
         self.trace_stack = []
@@ -336,6 +338,7 @@ class Explorer:
         """Check `pc => cond` now (one SMT query per path and obligation)."""
         cond = _b(cond) if not isinstance(cond, bool) else z3.BoolVal(cond)
         self.covered.add(name)
+        self.path_names.append(name)
         cs = simp(cond)
         if z3.is_true(cs):
             self.results.append(Obligation(name, "proved", "simplifier", 0.0, path=list(self.decisions[: self.pos])))
@@ -359,6 +362,19 @@ class Explorer:
                 os.makedirs(os.path.join(os.path.dirname(os.path.dirname(os.path.abspath(__file__))), ".scratch"), exist_ok=True)
                 open(os.path.join(os.path.dirname(os.path.dirname(os.path.abspath(__file__))), ".scratch", f"unknown-{self.name}-{name}-{len(self.results)}.smt2".replace("/", "_")), "w").write(sd.to_smt2())
             self.results.append(Obligation(name, "undecided", backend, dt, path=list(self.decisions[: self.pos]), detail="solver unknown"))
+
+    def sample_for_conformance(self):
+        """CPython conformance of the symbolic executor: keep a concrete input for some completed paths; the runner runs
+        the real code on it and compares which obligations were reached and that none fails natively."""
+        budget = 40 if os.environ.get("PYVC_TIER") == "thorough" else 4
+        if len(self.conf_samples) >= budget or not self.path_names:
+            return
+        s = z3.Solver()
+        s.set("timeout", 2000)
+        s.add(*self.pc)
+        if s.check() == z3.sat:
+            failed_here = [o.name for o in self.results[-len(self.path_names):] if o.status == "failed"]
+            self.conf_samples.append(dict(model=self.model_values(s.model()), names=list(self.path_names), failed_sym=failed_here))
 
     def candidate_search(self, cond):
         """Bounded search for a candidate counter-model when the solvers answer unknown: sequences are replaced by
@@ -454,9 +470,11 @@ class Explorer:
             prefix = self.worklist.pop()
             self.reset_path(prefix)
             vc = SymVC(self)
+            self.vc = vc
             try:
                 self.scenario(vc)
                 self.paths += 1
+                self.sample_for_conformance()
             except I.PathEnd as pe:
                 self.paths += 1
                 if pe.truncated:
@@ -579,7 +597,24 @@ class SymVC:
         return self.it.truthy(lift(v))
 
     def summary(self, ref, fn):
+        """Replace calls to `ref` ('pkg.mod:Class.method' or 'pkg.mod:func') by the contract function fn(vc, *args).
+        fn must work in both modes (in native mode the real attribute is patched for the duration of the run)."""
         self.ex.summaries[ref] = fn
+
+    def gen(self, items, result=None):
+        """A generator (for summaries of generator functions) that yields `items` and returns `result`."""
+        items = [lift(x) if not isinstance(x, SV) else x for x in items]
+
+        def run(sink):
+            for x in items:
+                sink(x)
+            return lift(result)
+
+        return I.SGen(run)
+
+    def ghost(self, tag, *args):
+        """A ghost trace item (tuple) recording an abstracted effect."""
+        return STuple([SStr(tag)] + [lift(a) for a in args])
 
     def invariant(self, ref, ordinal, fn):
         mod, qual, _ = ref.split(":")[0], ref.split(":")[1], None
@@ -665,6 +700,7 @@ class NativeVC:
         self.checked: list[str] = []
         self.assume_failed = False
         self.calls = []
+        self._patches = []
 
     def _val(self, name, default):
         v = self.values.get(name, default)
@@ -767,7 +803,39 @@ class NativeVC:
         return bool(v)
 
     def summary(self, ref, fn):
-        pass
+        mod, qual, obj = resolve_ref(ref)
+        parts = qual.split(".")
+        owner = mod
+        for p in parts[:-1]:
+            owner = getattr(owner, p)
+        orig = owner.__dict__.get(parts[-1]) if isinstance(owner, type) else getattr(owner, parts[-1])
+        vc = self
+        is_static = isinstance(orig, staticmethod)
+
+        def wrapper(*a, **k):
+            return fn(vc, *a, **k)
+
+        self._patches.append((owner, parts[-1], orig, parts[-1] in owner.__dict__))
+        setattr(owner, parts[-1], staticmethod(wrapper) if is_static else wrapper)
+
+    def restore(self):
+        for owner, name, orig, had in reversed(self._patches):
+            if had:
+                setattr(owner, name, orig)
+            else:
+                delattr(owner, name)
+        self._patches.clear()
+
+    def gen(self, items, result=None):
+        def g():
+            for x in items:
+                yield x
+            return result
+
+        return g()
+
+    def ghost(self, tag, *args):
+        return (tag,) + tuple(args)
 
     def invariant(self, ref, ordinal, fn):
         pass
@@ -830,4 +898,6 @@ def run_native(scenario, values):
         scenario(vc)
     except NativeStop as ns:
         return vc.failed, vc.checked, f"stopped: {ns}"
+    finally:
+        vc.restore()
     return vc.failed, vc.checked, "completed"
